@@ -75,6 +75,15 @@ func enumCases() []enumCase {
 			Tgt:     rgb("int", "5", "6", "7"),
 			Lines:   []string{"enum:map Azure Blue"},
 			Mapping: map[string]string{"Red": "Red", "Green": "Green", "Blue": "Blue", "Azure": "Blue"}},
+		// ... the alphabetically later alias carries the explicit line (Aqua < Blue), and both do
+		{Name: "alias_later_mapped", Src: enumDef{"int", []enumMember{{"Red", "0"}, {"Green", "1"}, {"Aqua", "2"}, {"Blue", "2"}}},
+			Tgt:     enumDef{"int", []enumMember{{"Red", "5"}, {"Green", "6"}, {"Aqua", "7"}}},
+			Lines:   []string{"enum:map Blue Aqua"},
+			Mapping: map[string]string{"Red": "Red", "Green": "Green", "Aqua": "Aqua", "Blue": "Aqua"}},
+		{Name: "alias_both_mapped", Src: enumDef{"int", []enumMember{{"Red", "0"}, {"Green", "1"}, {"Aqua", "2"}, {"Blue", "2"}, {"Cyan", "2"}}},
+			Tgt:     rgb("int", "5", "6", "7"),
+			Lines:   []string{"enum:map Aqua Blue", "enum:map Blue Blue", "enum:map Cyan Blue"},
+			Mapping: map[string]string{"Red": "Red", "Green": "Green", "Aqua": "Blue", "Blue": "Blue", "Cyan": "Blue"}},
 		{Name: "map_rename", Src: enumDef{"int", []enumMember{{"Red", "0"}, {"Gray", "1"}, {"Blue", "2"}}},
 			Tgt:     enumDef{"int", []enumMember{{"Red", "7"}, {"Grey", "8"}, {"Blue", "9"}}},
 			Lines:   []string{"enum:map Gray Grey"},
@@ -482,6 +491,48 @@ func FamilyEnum(thorough bool) []*Conv {
 			Aux:          map[string]string{"pfxsrc": ec.Src.source("pfxsrc", "Color"), "pfxtgt": ec.Tgt.source("pfxtgt", "Color")},
 			Imports:      []string{`pfxsrc "corpus/GRP/pfxsrc"`, `pfxtgt "corpus/GRP/pfxtgt"`},
 			Solo:         true,
+		})
+	}
+	// useUnderlyingTypeMethods with a custom function that unwraps only one side of an enum pair: a setting
+	// conflict (a diagnostic), never a silent conversion through the function instead of the member-wise switch
+	for i, half := range []struct{ name, fn string }{
+		{"source_unwrapped", "func PFXHalf(s string) pfxtgt.Color { return pfxtgt.Color(s) }\n"},
+		{"target_unwrapped", "func PFXHalf(s pfxsrc.Color) string { return string(s) }\n"},
+		{"both_unwrapped", "func PFXHalf(s string) string { return s }\n"},
+	} {
+		src := enumDef{"string", []enumMember{{"Red", `"r"`}, {"Green", `"g"`}, {"Blue", `"b"`}}}
+		tgt := enumDef{"string", []enumMember{{"Red", `"red"`}, {"Green", `"green"`}, {"Blue", `"blue"`}}}
+		out = append(out, &Conv{
+			ID: "enum/fail_underlying_function_conflict_" + half.name + "/" + []string{"struct", "function", "variable"}[i%3], Family: "enum", Format: []string{"struct", "function", "variable"}[i%3], Solo: true,
+			Params: "source PFXS", Results: "PFXT",
+			Decls:     "type PFXS struct{ E pfxsrc.Color }\ntype PFXT struct{ E pfxtgt.Color }\n" + half.fn,
+			ConvLines: []string{"enum:unknown @panic", "useUnderlyingTypeMethods", "extend PFXHalf"},
+			Spec:      &Spec{}, ExpectFail: true, FailNote: "enum pair that also matches a custom function through useUnderlyingTypeMethods (" + half.name + "): setting conflict",
+			Aux:     map[string]string{"pfxsrc": src.source("pfxsrc", "Color"), "pfxtgt": tgt.source("pfxtgt", "Color")},
+			Imports: []string{`pfxsrc "corpus/GRP/pfxsrc"`, `pfxtgt "corpus/GRP/pfxtgt"`},
+		})
+	}
+	// one source enum converted to two target enums by two methods that carry the same enum:transform line: the
+	// members chosen for one target say nothing about the other (the sibling is generated first)
+	for _, f := range []string{"struct", "function", "variable"} {
+		src := enumDef{"int", []enumMember{{"SrcRed", "0"}, {"SrcGreen", "1"}, {"SrcBlue", "2"}}}
+		tgtMain := enumDef{"int", []enumMember{{"TgtRed", "4"}, {"TgtGreen", "5"}, {"TgtBlue", "6"}, {"SrcGreen", "7"}}}
+		tgtSib := enumDef{"int", []enumMember{{"TgtRed", "14"}, {"SrcGreen", "15"}, {"SrcBlue", "16"}}}
+		es := &EnumSpec{Unknown: "@panic", Map: []EnumArm{{Src: "0", Tgt: "4"}, {Src: "1", Tgt: "5"}, {Src: "2", Tgt: "6"}}}
+		line := "\t// goverter:enum:transform regex Src(\\w+) Tgt$1\n"
+		sib := line + "\tAPFXSib(source pfxsrc.Color) pfxsib.Color\n"
+		if f == "variable" {
+			sib = line + "\tAPFXSib func(source pfxsrc.Color) pfxsib.Color\n"
+		}
+		out = append(out, &Conv{
+			ID: "enum/same_transform_two_targets/" + f, Family: "enum", Format: f, Solo: true,
+			Params: "source pfxsrc.Color", Results: "pfxtgt.Color",
+			ConvLines:    []string{"enum:unknown @panic"},
+			MethodLines:  []string{`enum:transform regex Src(\w+) Tgt$1`},
+			ExtraMethods: sib,
+			Spec:         &Spec{Enums: map[string]*EnumSpec{"Color→Color": es}},
+			Aux:          map[string]string{"pfxsrc": src.source("pfxsrc", "Color"), "pfxtgt": tgtMain.source("pfxtgt", "Color"), "pfxsib": tgtSib.source("pfxsib", "Color")},
+			Imports:      []string{`pfxsrc "corpus/GRP/pfxsrc"`, `pfxtgt "corpus/GRP/pfxtgt"`, `pfxsib "corpus/GRP/pfxsib"`},
 		})
 	}
 	// enum:map / enum:transform written on a method that does not itself convert the enum (pointer, slice, struct
